@@ -29,8 +29,20 @@ func classMember(rng *rand.Rand, c *Class, alpha []rune) rune {
 	return it.Lo + rune(rng.Intn(int(it.Hi-it.Lo)+1))
 }
 
+// sampleCuts, when set, collects the lengths of the output after every emitted leaf (the places where
+// an input can end "right after" a piece of a would-be match).  Generators are single-threaded per leg.
+var sampleCuts *[]int
+
 // sample walks the AST emitting text that tends to match it.
 func sample(rng *rand.Rand, n *Node, alpha []rune, out *[]rune, depth int) {
+	if sampleCuts != nil {
+		defer func() {
+			switch n.Kind {
+			case KLit, KClass, KDot, KShort, KCat:
+				*sampleCuts = append(*sampleCuts, len(*out))
+			}
+		}()
+	}
 	switch n.Kind {
 	case KLit:
 		r := n.Ch
@@ -124,16 +136,28 @@ func Inputs(rng *rand.Rand, n *Node, count, maxLen int) [][]rune {
 				s = append(s, alpha[rng.Intn(len(alpha))])
 			}
 		}
+		if rng.Intn(4) == 0 {
+			// the input ends right after a piece of a would-be match (a literal, a class member) — the place
+			// where a candidate finder looks one rune too far
+			var cuts []int
+			sampleCuts = &cuts
+			sample(rng, n, alpha, &s, 0)
+			sampleCuts = nil
+			if len(cuts) > 0 {
+				s = s[:cuts[rng.Intn(len(cuts))]]
+			}
+			if limit := maxLen + minRunes(n); len(s) > limit {
+				s = s[:limit]
+			}
+			res = append(res, s)
+			continue
+		}
 		reps := 1 + rng.Intn(2)
 		for i := 0; i < reps; i++ {
 			sample(rng, n, alpha, &s, 0)
 			if rng.Intn(2) == 0 {
 				s = append(s, alpha[rng.Intn(len(alpha))])
 			}
-		}
-		// the input ends inside (or right at the end of) a would-be match
-		if len(s) > 1 && rng.Intn(4) == 0 {
-			s = s[:1+rng.Intn(len(s)-1)]
 		}
 		// near-miss mutations
 		for m := rng.Intn(3); m > 0 && len(s) > 0; m-- {
@@ -149,6 +173,10 @@ func Inputs(rng *rand.Rand, n *Node, count, maxLen int) [][]rune {
 		}
 		if limit := maxLen + minRunes(n); len(s) > limit {
 			s = s[:limit]
+		}
+		// a final newline: where $ and \Z have two legal positions
+		if rng.Intn(8) == 0 {
+			s = append(s, '\n')
 		}
 		res = append(res, s)
 	}
